@@ -375,6 +375,9 @@ def run(ck):
               "pool.releaseConnection(conn) then processRequestQueue()")
 
     # ---------------- R6: no self-deadlock through the completion callbacks ----------------
+    lib.guard_release_rule(ck, "C15-R13", lambda f_: f_.file.endswith(("/client/client.cc", "/pistache/client.h")),
+                           "the client's mutexes (timeoutsLock, queuesLock, connsLock, the handler's) are always given back", 3)
+
     ck.rule("C15-R6", "A lockset + call-graph reachability through the onDone callbacks (lock re-entrancy)",
             "no call made while holding a client mutex (Transport::timeoutsLock, Client::queuesLock, ConnectionPool::connsLock) can reach — "
             "through resolved calls, the Promise constructor's synchronous callback and the onDone lambdas — a function that acquires the "
